@@ -29,7 +29,7 @@ def histOp (toks : List String) : Option String :=
     let (pid, rs, ops) ← runP (do let pid ← pId; let rs ← pRules; let n ← pNat; let ops ← pRep n pMOp; pEnd; pure (pid, rs, ops)) rest
     let one : MOp → String
       | .c pk d st => showPy showABuf (do let ps ← factory pid; managerCompress ps rs pk d st)
-      | .d s => showPy showABuf (managerDecompress rs s)
+      | .d s => showPy showABuf (managerDecompressG rs s)
     pure (";".intercalate (ops.map one))
   | "ruler" :: rest => do
     let (rs, ps) ← runP (do let rs ← pRules; let n ← pNat; let ps ← pRep n pPacket; pEnd; pure (rs, ps)) rest
@@ -43,7 +43,7 @@ def histOp (toks : List String) : Option String :=
     let (cs, ops) ← runP (do let n ← pNat; let cs ← pRep n pContext; let m ← pNat; let ops ← pRep m pFOp; pEnd; pure (cs, ops)) rest
     let one : FOp → String
       | .c pk i => showPy showABuf (frontCompress cs pk i)
-      | .d s i => showPy showABuf (frontDecompress cs s i)
+      | .d s i => showPy showABuf (frontDecompressG cs s i)
     pure (";".intercalate (ops.map one))
   | _ => none
 
